@@ -368,6 +368,12 @@ func genC01Case(t *rapid.T) (*ScalarCase, bool) {
 			rt = key + "=" + pad(lo)
 		}
 	}
+	alias := rapid.IntRange(0, 9).Draw(t, "alias") == 6
+	if alias {
+		// the library's exported rule function (valid.Gt ...) given for this call under another name
+		rt = "x" + rt
+		c.CallFns = []string{"x" + key}
+	}
 	c.Rules = []string{rt + msg}
 	c.Carrier = rapid.SampledFrom(Carriers).Draw(t, "carrier")
 	for i := 0; i < 8 && !c.carrierOK(); i++ {
